@@ -118,6 +118,9 @@ class CEval(object):
                 if base.pt.args[1].kind == 'cell':
                     return SV(TCell, Ite(present, v.t, ptypes.CI(IntC(0))))
             return v
+        if base.pt.kind == 'map':
+            key = self.ex.coerce(self.ev(n.slice), base.pt.args[0])
+            return SV(base.pt.args[1], Select(base.t, key.t))
         if base.pt.kind == 'tuple':
             i = ast.literal_eval(n.slice)
             return SV(base.pt.args[i], ptypes.tuple_get(base.pt, base.t, i))
@@ -133,7 +136,9 @@ class CEval(object):
             hi_t = None if sl.upper is None else self.int_of(sl.upper)
             return SV(s.pt, slice_term(self.ex, seq, lo_t, hi_t))
         i = self.int_of(n.slice)
-        j = self.ex.norm_index(i, ln)
+        # spec-level indexing: only a negative *literal* counts from the end; symbolic indices are taken
+        # as they are (contracts guard them to be in range)
+        j = self.ex.norm_index(i, ln) if i.op == 'const' else i
         if s.pt.kind == 'str':
             return SV(TStr, Nth(seq, j))
         return SV(s.pt.args[0], Nth(seq, j))
@@ -323,6 +328,13 @@ class CEval(object):
     def i_contents(self, n):
         return self.seq_of(self.ev(n.args[0]))
 
+    def i_old_contents(self, n):
+        # content, at function entry, of the list that the argument denotes *now*
+        v = self.ev(n.args[0])
+        if v.pt.kind == 'opt':
+            v = SV(v.pt.args[0], v.t)
+        return SV(TSeq(v.pt.args[0]), self.ex.list_content(self.entry, v))
+
     def i_implies(self, n):
         return SV(TBool, Implies(self.boolean(n.args[0]), self.boolean(n.args[1])))
 
@@ -361,7 +373,21 @@ class CEval(object):
 
     def i_is_offered(self, n):
         v = self.ev(n.args[0])
+        return SV(TBool, Or(Select(self.ex.ghost_set(self.st, '$wowned'), v.t), Select(self.ex.ghost_set(self.st, '$held'), v.t)))
+
+    def i_is_owned_below(self, n):
+        v = self.ev(n.args[0])
         return SV(TBool, Select(self.ex.ghost_set(self.st, '$wowned'), v.t))
+
+    def i_is_held(self, n):
+        v = self.ev(n.args[0])
+        return SV(TBool, Select(self.ex.ghost_set(self.st, '$held'), v.t))
+
+    def i_map_set(self, n):
+        m, k, v = self.ev(n.args[0]), self.ev(n.args[1]), self.ev(n.args[2])
+        k = self.ex.coerce(k, m.pt.args[0])
+        v = self.ex.coerce(v, m.pt.args[1])
+        return SV(m.pt, Store(m.t, k.t, v.t))
 
     def i_is_fresh(self, n):
         v = self.ev(n.args[0])
